@@ -8,27 +8,31 @@
 From PNA Require Import Base Codec Chunk Archive Entry Kdf KdfFacts.
 
 Theorem C08_phsf_has_no_hash :
-  forall (key : Type) (kdf : bytes -> option N -> list (bytes * N) -> bytes -> bytes -> key)
-    (kdf_valid : bytes -> option N -> list (bytes * N) -> bytes -> bool)
+  forall (key : Type) (kdf : bytes -> option N -> list (bytes * bytes) -> bytes -> bytes -> key)
+    (kdf_valid : bytes -> option N -> list (bytes * bytes) -> bytes -> option bytes -> bool)
     (phc_print : phc -> bytes) (phc_parse : bytes -> option phc)
     (m : cipher_mode) (h : hash_alg) (pw tape : bytes) (c : ctx key) (t' : bytes),
-  (forall (h : hash_alg) (salt : bytes), phc_parse (phc_print (writer_record h salt None)) = Some (writer_record h salt None)) ->
+  (forall (h : hash_alg) (salt : bytes),
+   length salt = SALT_LEN -> kdf_valid (alg_name h) (alg_version h) (alg_params h) salt None = true ->
+   phc_parse (phc_print (writer_record h salt None)) = Some (writer_record h salt None)) ->
   writer_context key kdf kdf_valid phc_print m h pw tape = Ok (c, t') ->
   exists p : phc, phc_parse (ctx_phsf c) = Some p /\ ph_hash p = None.
 Proof. exact phsf_has_no_hash. Qed.
 Check C08_phsf_has_no_hash :
-  forall (key : Type) (kdf : bytes -> option N -> list (bytes * N) -> bytes -> bytes -> key)
-    (kdf_valid : bytes -> option N -> list (bytes * N) -> bytes -> bool)
+  forall (key : Type) (kdf : bytes -> option N -> list (bytes * bytes) -> bytes -> bytes -> key)
+    (kdf_valid : bytes -> option N -> list (bytes * bytes) -> bytes -> option bytes -> bool)
     (phc_print : phc -> bytes) (phc_parse : bytes -> option phc)
     (m : cipher_mode) (h : hash_alg) (pw tape : bytes) (c : ctx key) (t' : bytes),
-  (forall (h : hash_alg) (salt : bytes), phc_parse (phc_print (writer_record h salt None)) = Some (writer_record h salt None)) ->
+  (forall (h : hash_alg) (salt : bytes),
+   length salt = SALT_LEN -> kdf_valid (alg_name h) (alg_version h) (alg_params h) salt None = true ->
+   phc_parse (phc_print (writer_record h salt None)) = Some (writer_record h salt None)) ->
   writer_context key kdf kdf_valid phc_print m h pw tape = Ok (c, t') ->
   exists p : phc, phc_parse (ctx_phsf c) = Some p /\ ph_hash p = None.
 Print Assumptions C08_phsf_has_no_hash.
 
 Theorem C08_fresh_draws :
-  forall (key : Type) (kdf : bytes -> option N -> list (bytes * N) -> bytes -> bytes -> key)
-    (kdf_valid : bytes -> option N -> list (bytes * N) -> bytes -> bool) (phc_print : phc -> bytes)
+  forall (key : Type) (kdf : bytes -> option N -> list (bytes * bytes) -> bytes -> bytes -> key)
+    (kdf_valid : bytes -> option N -> list (bytes * bytes) -> bytes -> option bytes -> bool) (phc_print : phc -> bytes)
     (k : writer_kind) (enc : encryption) (m : cipher_mode) (h : hash_alg) (pw : bytes)
     (n : nat) (tape : bytes) (cs : list (ctx key)) (t' : bytes),
   write_all key kdf kdf_valid phc_print k enc m h pw n tape = Ok (cs, t') ->
@@ -39,8 +43,8 @@ Theorem C08_fresh_draws :
             ctx_phsf c = phc_print (writer_record h salt None)) cs.
 Proof. exact fresh_draws. Qed.
 Check C08_fresh_draws :
-  forall (key : Type) (kdf : bytes -> option N -> list (bytes * N) -> bytes -> bytes -> key)
-    (kdf_valid : bytes -> option N -> list (bytes * N) -> bytes -> bool) (phc_print : phc -> bytes)
+  forall (key : Type) (kdf : bytes -> option N -> list (bytes * bytes) -> bytes -> bytes -> key)
+    (kdf_valid : bytes -> option N -> list (bytes * bytes) -> bytes -> option bytes -> bool) (phc_print : phc -> bytes)
     (k : writer_kind) (enc : encryption) (m : cipher_mode) (h : hash_alg) (pw : bytes)
     (n : nat) (tape : bytes) (cs : list (ctx key)) (t' : bytes),
   write_all key kdf kdf_valid phc_print k enc m h pw n tape = Ok (cs, t') ->
